@@ -30,6 +30,8 @@ def _blinding_of_context(k, t):
 
 
 def run(c):
+    import r9
+    c.r9("C20")
     c.no_reach_cg("deterministic-derivation", ROOTS, r4.ENTROPY_CALL, floor_nodes=60, edge_filter=_blinding_of_context,
                   desc="no entropy/clock source reachable from key derivation, commitment, rewind-nonce, proof-message, check-output and proof::rewind "
                        "(exception: static_secp_instance re-randomising the secp context)")
